@@ -28,14 +28,15 @@ class Coef:
 
 
 class GeoidAnalyzer(Analyzer):
-    def __init__(self, ctx, res):
+    def __init__(self, ctx, res, cls=NS + 'Geoid'):
         Analyzer.__init__(self, ctx.prog, max_states=20000)
+        self.cls = cls
         self.ctx = ctx
         self.res = res
         self.coefs = {}
         self.obl = {}           # (kind, loc) -> [proved?, violated?, detail]
         self.depth = 0
-        self.fns = {f.name: f for f in ctx.lib_fns() if f.cls == NS + 'Geoid' and f.d.get('body', -1) >= 0}
+        self.fns = {f.name: f for f in ctx.lib_fns() if f.cls == cls and f.d.get('body', -1) >= 0}
 
     # ---------------------------------------------------------------- class symbols
     def base_state(self):
@@ -86,14 +87,18 @@ class GeoidAnalyzer(Analyzer):
         return lo, hi
 
     def scaled(self, x, coef, st):
-        """x * coef for a real quantity x with known numeric range: a new symbol with linear bounds in the class
-        symbols, ordered consistently with the earlier products by the same coefficient."""
+        """x * coef for a real quantity x: a new symbol with linear bounds in the class symbols when x has a known
+        numeric range (unbounded when x is an unconstrained input: the coefficient is positive, so the product is
+        as free as x), ordered consistently with the earlier products by the same coefficient."""
         nb = self.numeric_bounds(x, st)
         if nb is None:
-            return UNK
-        p = self.fresh('p', st, False, loose=False)
-        st.sys.add_le(coef.lin.scale(nb[0]), p)
-        st.sys.add_le(p, coef.lin.scale(nb[1]))
+            if set(x.c) & self.loose:
+                return UNK
+            p = self.fresh('p', st, False, loose=False)
+        else:
+            p = self.fresh('p', st, False, loose=False)
+            st.sys.add_le(coef.lin.scale(nb[0]), p)
+            st.sys.add_le(p, coef.lin.scale(nb[1]))
         for cn, x2, p2 in st.products:
             if cn != coef.name:
                 continue
@@ -150,7 +155,7 @@ class GeoidAnalyzer(Analyzer):
                     else:
                         out.append((UNK, s2))
             return out
-        if q == NS + 'Geoid::filepos' and len(args) == 2:
+        if q == self.cls + '::filepos' and len(args) == 2:
             out = []
             for x, s1 in self.ev(f, args[0], st):
                 for y, s2 in self.ev(f, args[1], s1):
@@ -163,7 +168,7 @@ class GeoidAnalyzer(Analyzer):
             return self.readarray(f, nid, n, st)
         if nm == 'operator[]' and n['k'] == 'CXXOperatorCallExpr' and len(args) == 2:
             return self.data_index(f, nid, n, st)
-        callee = self.fns.get(nm) if q.startswith(NS + 'Geoid::') else None
+        callee = self.fns.get(nm) if q.startswith(self.cls + '::') else None
         if callee is not None and self.depth < 2 and nm in ('rawval',):
             out = []
             states = [st]
@@ -344,28 +349,34 @@ def _ctor_invariants(ctx, res):
     return f, coefs
 
 
-def rule_K7(ctx):
+def rule_K7(ctx, cls=NS + 'Geoid', entries=('height', 'CacheArea'), with_ctor=True):
     res = RuleResult('K7', 'raster bounds: on every path of Geoid::height (rawval inlined) and Geoid::CacheArea every file '
                            'position lies inside the raster, every cache access inside the cache and every block read inside '
                            'one raster row and one cache row - for all raster sizes the constructor accepts (linear-relational '
                            'path analysis, entailment by Fourier-Motzkin elimination)')
-    ctor, coef_nodes = _ctor_invariants(ctx, res)
-    an = GeoidAnalyzer(ctx, res)
-    st0 = an.base_state()
-    for m, node in coef_nodes.items():
-        vals = an.ev(ctor, node, st0.copy())
-        if len(vals) != 1 or not isinstance(vals[0][0], Lin):
-            raise AnalysisBroken('K7: cannot read the definition of %s from the constructor' % m)
-        an.coefs[m] = Coef(m, vals[0][0])
-    if set(an.coefs) != {'_rlonres', '_rlatres'}:
-        raise AnalysisBroken('K7: _rlonres / _rlatres are not assigned in the constructor')
+    an = GeoidAnalyzer(ctx, res, cls)
+    if with_ctor:
+        ctor, coef_nodes = _ctor_invariants(ctx, res)
+        st0 = an.base_state()
+        for m, node in coef_nodes.items():
+            vals = an.ev(ctor, node, st0.copy())
+            if len(vals) != 1 or not isinstance(vals[0][0], Lin):
+                raise AnalysisBroken('K7: cannot read the definition of %s from the constructor' % m)
+            an.coefs[m] = Coef(m, vals[0][0])
+        if set(an.coefs) != {'_rlonres', '_rlatres'}:
+            raise AnalysisBroken('K7: _rlonres / _rlatres are not assigned in the constructor')
     nfn = 0
-    for name in ('height', 'CacheArea'):
+    for name in entries:
         f = an.fns.get(name)
         if f is None:
-            raise AnalysisBroken('K7: anchor vanished: Geoid::' + name)
+            raise AnalysisBroken('K7: anchor vanished: %s::%s' % (cls, name))
         nfn += 1
         st = an.base_state()
+        # arguments are free inputs: any value of their type (not a modelling gap, so violations that involve them count)
+        for prm in f.params:
+            if prm['pk'] in ('v', 'cr') and (prm.get('float') or prm.get('int')) and prm['t'].replace('const ', '') != 'bool':
+                v = an.fresh('arg_' + prm['name'], st, bool(prm.get('int')), loose=False)
+                st.env[prm['d']] = v
         try:
             an.ex(f, f.d['body'], [st])
         except TooManyPaths:
